@@ -64,6 +64,15 @@ class Scal:
         return 'scalar'
 
 
+class Lst:
+    """a python list filled by `.append(v)` in a loop over one axis (opt-in: Typer.squeezers is not None)"""
+    def __init__(self, elem=None, axis=None, node=None):
+        self.elem, self.axis, self.node = elem, axis, node
+
+    def __repr__(self):
+        return f'list[{self.elem} over {self.axis}]'
+
+
 class Top:
     def __repr__(self):
         return 'T'
@@ -100,6 +109,9 @@ class Typer:
         self.class_const_index = []      # (func, node, axis label) constant positions used on an axis
         self.reduced_axes = []           # (func, node, axis label) reductions
         self.class_axis_selections = []  # (func, node, axis label) selections (mask / index / partial slice) along the class axis
+        self.squeezers = None            # opt-in (C07-D2): keys of repository functions whose result is `.squeeze()`d (the batch axis of a
+        #                                  one-row argument disappears); enables list / stack tracking
+        self.loop_axes = []
 
     # ------------------------------------------------------------------ reporting
     def ok(self, node, detail):
@@ -139,8 +151,12 @@ class Typer:
         elif isinstance(st, ast.AugAssign):
             self.augassign(st)
         elif isinstance(st, ast.For):
-            self.bind_loop(st)
-            self.block(st.body)
+            lab = self.bind_loop(st)
+            self.loop_axes.append(lab)
+            try:
+                self.block(st.body)
+            finally:
+                self.loop_axes.pop()
         elif isinstance(st, ast.While):
             self.block(st.body)
         elif isinstance(st, ast.If):
@@ -188,14 +204,15 @@ class Typer:
             a = self.ev(it.args[-1] if len(it.args) == 1 else it.args[1]) if it.args else TOP
             if isinstance(t, ast.Name):
                 self.env[t.id] = Idx(a.label) if isinstance(a, Dim) else Idx('?')
-            return
+            return a.label if isinstance(a, Dim) else None
         if isinstance(it, ast.Call) and norm(it.func) == 'enumerate' and isinstance(t, ast.Tuple) and len(t.elts) == 2:
             inner = it.args[0]
             first = self.iter_elem(inner, t.elts[1], st)
             if isinstance(t.elts[0], ast.Name):
                 self.env[t.elts[0].id] = Idx(first) if first else Idx('?')
-            return
+            return first
         first = self.iter_elem(it, t, st)
+        return first
 
     def iter_elem(self, it, target, st):
         """bind `target` to the elements of iterable `it`; returns the label of the iterated (first) axis or None"""
@@ -316,6 +333,8 @@ class Typer:
             if e.attr in ('real', 'imag') and isinstance(v, Arr):
                 return v
             return TOP
+        if isinstance(e, ast.List) and not e.elts and self.squeezers is not None:
+            return Lst()
         if isinstance(e, ast.Tuple) or isinstance(e, ast.List):
             return Tup([self.ev(x) for x in e.elts])
         if isinstance(e, ast.UnaryOp):
@@ -572,6 +591,10 @@ class Typer:
         f = e.func
         d = self.prog.dotted(self.func.mod, f) if isinstance(f, (ast.Name, ast.Attribute)) else None
         last = (d or norm(f)).split('.')[-1]
+        if self.squeezers is not None:
+            r = self.call_lists(e, f, d, last)
+            if r is not None:
+                return r
         # numpy functions
         if d and d.startswith('numpy'):
             args = [self.ev(a) for a in e.args]
@@ -669,6 +692,47 @@ class Typer:
             return self.inline(callee, e)
         return TOP
 
+    def call_lists(self, e, f, d, last):
+        """opt-in part (C07-D2): lists filled per loop iteration and stacked afterwards; results of squeezing cipher entry points"""
+        if isinstance(f, ast.Attribute) and f.attr == 'append' and isinstance(f.value, ast.Name) and isinstance(self.env.get(f.value.id), Lst) and len(e.args) == 1:
+            v = self.ev(e.args[0])
+            lab = self.loop_axes[-1] if self.loop_axes else None
+            cur = self.env[f.value.id]
+            if cur.elem is None and isinstance(v, Arr) and lab:
+                self.env[f.value.id] = Lst(v, lab, e)
+            elif not (isinstance(v, Arr) and isinstance(cur.elem, Arr) and cur.elem.labels == v.labels and cur.axis == lab):
+                self.env[f.value.id] = Lst(TOP, None, e)
+            return SCAL
+        if d and d.startswith('numpy') and last in ('stack', 'array', 'asarray', 'vstack') and e.args and isinstance(e.args[0], ast.Name) and isinstance(self.env.get(e.args[0].id), Lst):
+            lst = self.env[e.args[0].id]
+            if not isinstance(lst.elem, Arr) or lst.axis is None:
+                return TOP
+            axis = 0
+            for k in e.keywords:
+                if k.arg == 'axis':
+                    axis = const_value(k.value)
+            if last == 'stack' and len(e.args) > 1:
+                axis = const_value(e.args[1])
+            if last == 'vstack' or not isinstance(axis, int):
+                return TOP
+            if getattr(lst.elem, 'fragile', None):
+                self.bad(e, f'`{norm(e)[:70]}` stacks per-iteration results of {lst.elem.fragile}, which returns `.squeeze()`d arrays: for a batch of exactly one trace each result has '
+                         f'lost its trace axis, so the stacked array is laid out ({",".join(lst.elem.labels[1:])},{lst.axis}) with the axes in other places than for larger batches')
+            labels = list(lst.elem.labels)
+            if axis < 0:
+                axis += len(labels) + 1
+            labels.insert(axis, lst.axis)
+            return Arr(labels)
+        if d and d.startswith('scared.') and isinstance(f, (ast.Name, ast.Attribute)):
+            r = self.prog.resolve(self.func.mod, f)
+            if r and r[0] == 'func' and r[1].key in self.squeezers and e.args:
+                a0 = self.ev(e.args[0])
+                if isinstance(a0, Arr) and len(a0.labels) == 2:
+                    out = Arr(a0.labels)
+                    out.fragile = r[1].name
+                    return out
+        return None
+
     def inline(self, callee, e):
         params = list(callee.params)
         static = any(norm(d) == 'staticmethod' for d in callee.node.decorator_list)
@@ -690,6 +754,7 @@ class Typer:
                 env['axis'] = Idx(f'axis={const_value(a)}')
         sub = Typer(self.prog, self.cls, self.rule, self.sink, self.attrs, self.depth + 1)
         sub.lut_attrs = self.lut_attrs
+        sub.squeezers = self.squeezers
         sub.class_const_index = self.class_const_index
         sub.reduced_axes = self.reduced_axes
         sub.class_axis_selections = self.class_axis_selections
